@@ -4,6 +4,7 @@ import (
 	"context"
 	"errors"
 	"fmt"
+	"math"
 	"math/rand"
 	"slices"
 	"strings"
@@ -907,7 +908,10 @@ func (d *dealer) syncCall(caller *wamp.Session, msg *wamp.Call) {
 	// The error message that is returned to the Caller MUST use
 	// wamp.error.timeout as the reason URI.
 	if timeout > 0 {
-		// Timer removed if context canceled, call cancelled if timeout.
+		// Timer removed if context canceled, call cancelled if timeout. A
+		// timeout too large for a time.Duration is the longest possible one.
+		const maxTimeout = int64(math.MaxInt64 / time.Millisecond)
+		timeout = min(timeout, maxTimeout)
 		var timerCtx context.Context
 		timerCtx, invk.timerCancel = context.WithTimeout(context.Background(),
 			time.Duration(timeout)*time.Millisecond)
